@@ -99,6 +99,14 @@ def enumerated(tier):
             continue
           yield {'k': 't', 'pos': pos, 'timeout': None, 'end': end, 'repeat': rep,
                  'own': 'C', 'default': dflt}
+  # the body ends by raising, early (also with the slow log handler delaying
+  # what its thread logs on the way out: the exception message comes first)
+  for pos in POSITIONS:
+    for tmo in (10, 1):
+      for end in ('-2P', '-eps', 'early_slow_exit'):
+        for rep in (False, True):
+          yield {'k': 't', 'pos': pos, 'timeout': tmo, 'end': end, 'repeat': rep,
+                 'own': 'X'}
   # the phase after the timed-out one (a teardown phase) ends terminally too
   for pos in ('main', 'teardown'):
     for end in ('never', 'unkillable', '+P+eps'):
@@ -211,6 +219,8 @@ def run_timing(case):
       return None
     vc.vsleep(dur)
     log.add('end', 'timed', n, vc.monotonic())
+    if case['own'] == 'X':
+      raise pm.Boom('the body ends by raising')
     return None if case['own'] == 'C' else H.PhaseResult.FAIL_AND_CONTINUE
 
   @H.measures(H.Measurement('shared'))
@@ -336,7 +346,7 @@ def run_timing(case):
     bad('timed-phase-has-no-record')
     return {'sig': case, 'violations': viol, 'counters': c}
   res = pm.res_name(first.result)
-  own_res = 'CONTINUE' if case['own'] == 'C' else 'FAIL_AND_CONTINUE'
+  own_res = {'C': 'CONTINUE', 'F': 'FAIL_AND_CONTINUE', 'X': 'EXC'}[case['own']]
   zone = ('early' if end in ('-2P', '-eps', 'early_slow_exit') else
           'grey' if end in ('+eps', '+P-eps') else 'late')
   if d == 0 and zone == 'early':
